@@ -5,3 +5,4 @@ import Driver.ErasedSet
 import Driver.Tree
 import Driver.Render
 import Driver.SourceMap
+import Driver.InlineOps
